@@ -741,8 +741,8 @@ impl Compiler {
         let disc_reg = self.builder.alloc_register()?;
         self.compile_expression(&switch_stmt.discriminant, disc_reg)?;
 
-        // Push loop context for break (switch uses the same break mechanism)
-        self.push_loop(None);
+        // Push switch context for break (switch uses the same break mechanism as loops)
+        self.push_switch();
 
         // Function declarations in any clause are hoisted to the top of the switch body
         for case in switch_stmt.cases.iter() {
